@@ -40,10 +40,18 @@ def emit_m2(name, exprs, suffix=""):
                                                     gal(exprs[2]), gal(exprs[3])))
 
 
-def emit_v2(name, exprs):
-    return ("Definition %s (m : m2 K) (z1 z2 : K) : K * K :=\n"
+def emit_v2(name, exprs, suffix=""):
+    return ("Definition %s%s (m : m2 K) (z1 z2 : K) : K * K :=\n"
             "  let '(M2 m11 m12 m21 m22) := m in\n"
-            "  (%s,\n   %s).\n" % (name, gal(exprs[0]), gal(exprs[1])))
+            "  (%s,\n   %s).\n" % (name, suffix, gal(exprs[0]), gal(exprs[1])))
+
+
+def emit_v2_alias(name, inf):
+    """the call with zi overlaying the first row of the input matrix (what the in-place
+    vnadata_convert(vdp, vdp, VPT_ZIN) does) equals the call with separate arrays"""
+    return (emit_v2(name, inf["alias"], "_alias") +
+            "Lemma %s_alias_eq m z1 z2 : %s_alias m z1 z2 = %s m z1 z2.\n"
+            "Proof. destruct m; reflexivity. Qed.\n" % (name, name, name))
 
 
 def emit_group(x, infos, repo):
@@ -79,6 +87,7 @@ def emit_zi(infos, repo):
                                    "Section G.")]
     st = infos["stozi"]
     out.append(emit_v2("stozi", st["sep"]))
+    out.append(emit_v2_alias("stozi", st))
     out.append("Definition stozi_factors (m : m2 K) (z1 z2 : K) : list K :=\n"
                "  let '(M2 m11 m12 m21 m22) := m in\n  %s.\n" % deflist(st["factors"]))
     out.append("Definition stozi_ok (m : m2 K) (z1 z2 : K) : Prop := all_nz (stozi_factors m z1 z2).\n")
@@ -100,6 +109,7 @@ def emit_zi(infos, repo):
                 fs.append(f)
         out.append("(* ---- vnaconv_%s ---- *)" % n)
         out.append(emit_v2(n, inf["sep"]))
+        out.append(emit_v2_alias(n, inf))
         out.append("Definition %s_factors (m : m2 K) (z1 z2 : K) : list K :=\n"
                    "  let '(M2 m11 m12 m21 m22) := m in\n  %s.\n" % (n, deflist(fs)))
         out.append("Definition %s_ok (m : m2 K) (z1 z2 : K) : Prop := all_nz (%s_factors m z1 z2).\n" % (n, n))
@@ -166,6 +176,15 @@ def emit_all(infos, repo):
     for x in TYPES:
         out.append("  | %s => %stozi K" % (PT[x], x))
     out.append("  end.\n")
+    out.append("Definition conv2zi_alias (X : ptype) : m2 K -> K -> K -> K * K :=\n  match X with")
+    for x in TYPES:
+        out.append("  | %s => %stozi_alias K" % (PT[x], x))
+    out.append("  end.\n")
+    out.append("Lemma conv2zi_alias_eq X m z1 z2 : conv2zi_alias X m z1 z2 = conv2zi X m z1 z2.\n"
+               "Proof.\n  destruct X; cbn [conv2zi conv2zi_alias].")
+    for x in TYPES:
+        out.append("  - apply %stozi_alias_eq." % x)
+    out.append("Qed.\n")
     out.append("Definition conv2zi_ok (X : ptype) (m : m2 K) (z1 z2 : K) : Prop :=\n  match X with")
     for x in TYPES:
         if x == "s":
